@@ -353,12 +353,14 @@ def chargesOf (mix : Mix) (pc0 : BitVec 32) (ea : BitVec 32) (stack : BitVec 32)
   chg .I mix.i pc0 ++ chg .J mix.j vec ++ chg .K mix.k stack ++ chg .L mix.l ea ++ chg .M mix.m ea ++ chg .N mix.n pc0
 
 /-- MES system call performed by `TRAPA #0` (C14): 104 = write, 113 = set_handler -/
-def syscall (s : Cpu) : Option (Cpu × List String) :=
+def syscall (s : Cpu) : Option (Cpu × List String × List String) :=
   let id := getER s.regs 0
   let argp : BitVec 24 := (getER s.regs 1).setWidth 24
   if id == 104 then
     let buf : BitVec 24 := (loadBE s.bus (argp + 4) 4).setWidth 24
     let len := (loadBE s.bus (argp + 8) 4).toNat
+    -- longer than the largest mapped region: necessarily leaves mapped memory (outside the statement)
+    if len > 0x200000 then some (s, ["unmapped"], []) else
     let bytes := (List.range len).map (fun k => peek s.bus ((buf.toNat + k) % 2 ^ 24))
     let tags :=
       accessTags argp 12 false ++
@@ -367,8 +369,8 @@ def syscall (s : Cpu) : Option (Cpu × List String) :=
       (if (getER s.regs 1).toNat + 12 > 2 ^ 24 then ["wrap"] else [])
     match String.fromUTF8? (ByteArray.mk (bytes.map (fun b => b.toNat.toUInt8)).toArray) with
     | some str =>
-      some ({ s with out := str :: s.out, bus := { s.bus with msgs := ("stdout:" ++ str) :: s.bus.msgs } }, tags)
-    | none => some (s, "badutf8" :: tags)
+      some ({ s with out := str :: s.out, bus := { s.bus with msgs := ("stdout:" ++ str) :: s.bus.msgs } }, tags, [])
+    | none => some (s, "badutf8" :: tags, [])
   else if id == 113 then
     let v := loadBE s.bus argp 4
     let addr := loadBE s.bus (argp + 4) 4
@@ -380,8 +382,10 @@ def syscall (s : Cpu) : Option (Cpu × List String) :=
       let ga : BitVec 24 := BitVec.ofNat 24 (0xfffd10 + 4 * v.toNat)
       let bus := storeBE s.bus va 4 ((addr &&& 0x00ffffff#32) ||| 0x5a000000#32)
       let bus := storeBE bus ga 4 (getER s.regs 5)
-      some ({ s with bus := bus }, "sethandler" :: tags)
-    else some (s, tags)
+      let hx (n : Nat) : String := String.ofList (Nat.toDigits 16 n)
+      some ({ s with bus := bus }, "sethandler" :: tags,
+        [s!"m:{hx (4 * v.toNat)}"] ++ (List.range 4).map (fun k => s!"m:{hx (0xfffd10 + 4 * v.toNat + k)}"))
+    else some (s, tags, [])
   else none
 
 /-- Semantics of one decoded instruction. `pc0` = address of the instruction, `len` = its length in
@@ -514,9 +518,9 @@ def exec (f : Form) (i : Instr) (pc0 : BitVec 32) (len : Nat) (s : Cpu) : StepRe
   | .trapa n =>
     if n == 0 then
       match syscall s with
-      | some (s', tags) =>
+      | some (s', tags, dc) =>
         -- system call: not a hardware instruction; its cost is outside C20
-        .valid f { cpu := { s' with pc := next }, charges := [], tags := "syscall" :: tags, dc := [] }
+        .valid f { cpu := { s' with pc := next }, charges := [], tags := "syscall" :: tags, dc := dc }
       | none => .reject f "unsupported system call"
     else
       let frame := (s.ccr.setWidth 32 <<< 24) ||| low24 next
